@@ -545,6 +545,11 @@ def rw_exp(rng):
 def rw_term(rng, vs):
     r = rng.random()
     v = rng.choice(vs)
+    if r < 0.04:
+        # a power of a power, and products of bare constants (folding chains)
+        if rng.random() < 0.5:
+            return f"({v}^{rng.choice(['2', '2', '4', '3', '0'])})^{rng.choice(['0.5', '(1 / 2)', '2', '1.5', '-1', '0.25'])}"
+        return " * ".join(rw_number(rng) for _ in range(rng.choice([2, 3, 4])))
     if r < 0.2:
         return rw_number(rng)
     if r < 0.35:
@@ -580,8 +585,11 @@ def rw_expr(rng, d, vs, int_only=False):
         return f"({a}) / ({b})"
     if r < 0.8 and not int_only:
         return f"{rw_term(rng, vs)} / {rw_term(rng, vs)}"
-    if r < 0.85:
+    if r < 0.83:
         return f"({a})^{rng.randint(0, 3)}"
+    if r < 0.85 and not int_only:
+        # fractional exponents: (x^2)^0.5 is |x|, not x
+        return f"({a})^{rng.choice(['0.5', '(1 / 2)', '1.5', '0.25', '(1 / 3)'])}"
     if r < 0.88 and not int_only:
         return f"({a})^-{rng.randint(1, 2)}"
     if r < 0.93:
@@ -619,7 +627,7 @@ def kind_tree_text(rng, d, vs):
     op = {"add": "+", "sub": "-", "mul": "*", "div": "/"}.get(k)
     if k == "pow":
         if rng.random() < 0.5:
-            b = rng.choice([str(rng.randint(0, 3)), "-" + str(rng.randint(1, 2)), b])
+            b = rng.choice([str(rng.randint(0, 3)), "-" + str(rng.randint(1, 2)), b, "0.5", "1 / 2", "1.5"])
         return f"({a})^({b})"
     if twin and rng.random() < 0.5:
         return f"{a} {op} ({b})"       # unparenthesised left twin: (x + 1) - (x + 1) as x + 1 - (x + 1)
@@ -688,7 +696,8 @@ class RewriteSim:
         cfg = {"prop": prop, "stratum": stratum, "eq_seed": rng.randrange(2 ** 32)}
         _POOL["nums"] = _POOL["exps"] = None
         if rng.random() < 0.4:
-            _POOL["nums"] = [rng.choice(["0.5", "0.25", "1.5", "2.5", "0.1", "0.75"]) if rng.random() < 0.4
+            _POOL["nums"] = [rng.choice(["0.5", "0.25", "1.5", "2.5", "0.1", "0.75", "0.001", "0.000001"])
+                             if rng.random() < 0.4
                              else rw_number(rng) for _ in range(rng.choice([1, 2, 3]))]
             _POOL["exps"] = [str(rng.randint(0, 4)) for _ in range(rng.choice([1, 2]))]
             cfg["literal_pool"] = [_POOL["nums"], _POOL["exps"]]
